@@ -49,7 +49,10 @@ Init == /\ ctx \in Contexts
         /\ md = FeedAll(RdInit(Origin0, 1), Prefix(ctx), 1, CodeDevs)
         /\ act = "Init"
 
-Push(c, a) == /\ Len(txt) < MaxLen
+\* the further contexts are explored one octet less deep (each string is also
+\* read with the completing suffixes)
+MaxLenOf(c) == IF c \in {"file", "txt"} THEN MaxLen ELSE MaxLen - 1
+Push(c, a) == /\ Len(txt) < MaxLenOf(ctx)
            /\ c \in Alphabet(ctx)
            /\ act' = a
            /\ txt' = Append(txt, c)
